@@ -275,7 +275,7 @@ def do_replay(spec, path):
     exp = doc["expected"]["check"]
     hits = [v for v in res["viol"] if v["check"] == exp]
     for v in res["viol"]:
-        print("  violation: %s :: %s" % (v["check"], v["detail"][:400]))
+        print("  violation: %s :: %s :: %s" % (v["check"], v["detail"][:400], v.get("flags", {})))
     if hits:
         print("REPRODUCED %s" % exp)
         print("VIOLATION property=%s replay=%s" % (spec.id, path))
